@@ -82,6 +82,13 @@ def check_law(ctx, case):
         ctx.count("constructor_raised_skipped")
         return
     g = og.value
+    if case.get("warmup"):
+        # the same generator object has already answered another request when the judged one is made
+        try:
+            g.generate_profile(case["warmup"])
+            ctx.count("warmup_requests_on_same_generator")
+        except Exception:  # noqa
+            ctx.count("warmup_raised")
     r = rng.Rng("tap", seed=case["seed"])
     with r:
         if case.get("entry") == "mcmc":
@@ -668,6 +675,15 @@ def check_spatial(ctx, case):
     ctx.case(case, nontrivial=len(cs) >= 3)
     seed_all(case["seed"])
     g = bp.make(model, case["params"])
+    if case.get("warmup"):
+        try:
+            if model == "ClusteredSpatial":
+                g.generate_profile_with_dict({c: (k + 1) % 3 for k, c in enumerate(case["by_cand"])})
+            else:
+                g.generate_profile(case["warmup"])
+            ctx.count("warmup_requests_on_same_generator")
+        except Exception:  # noqa
+            ctx.count("warmup_raised")
     r = rng.Rng("tap", seed=case["seed"])
     with r:
         if model == "ClusteredSpatial":
@@ -881,6 +897,8 @@ def gen_law_case(rnd, i):
         case["extra"] = {"num_votes": rnd.randint(1, 4)}
     if model == "slate_BradleyTerry" and rnd.random() < 0.3:
         case["entry"] = "mcmc"
+    if rnd.random() < 0.25:
+        case["warmup"] = rnd.choice([1, 2, 5])
     return case
 
 
@@ -923,6 +941,8 @@ def run(ctx):
             if model == "ClusteredSpatial":
                 c["by_cand"] = {x: rnd.randint(0, 3) for x in cs}
                 c["by_cand"][cs[0]] = max(1, c["by_cand"][cs[0]])
+            if rnd.random() < 0.3:
+                c["warmup"] = rnd.choice([1, 3])
             ctx.guard("spatial", check_spatial, ctx, c)
 
 
